@@ -65,7 +65,7 @@ def runnable(st, t):
         m = st.env.get('mtx', {}).get(w[1])
         return m is None or m[0] == t.tid
     if k == 'sem': return st.env.get('sem', {}).get(w[1], 0) > 0
-    if k == 'cond': return st.env.get('cond', {}).get(w[1], 0) != w[2]
+    if k == 'cond': return st.env.get('cond', {}).get(w[1], 0) != w[2] or st.env.get('condtok', {}).get(w[1], 0) > 0
     if k == 'spin': return st.env['wseq'] != w[1]
     if k == 'sleep': return True
     return False
@@ -86,10 +86,12 @@ def do_sched(e, st):
     kind = st.sched
     cur = st.threads[st.cur]
     others = [j for j, t in enumerate(st.threads) if j != st.cur and runnable(st, t)]
-    if kind == 'preempt':
+    if kind == 'preempt' or kind == 'post':
+        # 'preempt': before a visible operation (the instruction is re-executed, its pre-phase skipped);
+        # 'post': right after a visible store / read-modify-write, before the thread's following plain code
         k = choose(e, st, len(others) + 1)
         st.sched = None
-        cur.skip = True
+        if kind == 'preempt': cur.skip = True
         if k:
             st.env['budget'] -= 1
             switch_to(st, others[k - 1])
@@ -130,6 +132,17 @@ def sched_point(e, st, fr):
             st.sched = 'preempt'
             return True
     return False
+
+
+def post_point(e, st):
+    """after a visible store: the thread may also be preempted here, i.e. before the plain code that follows the store
+    (hand-over protocols publish a flag and then keep using shared memory)"""
+    if st.env['budget'] <= 0:
+        return
+    for j, t in enumerate(st.threads):
+        if j != st.cur and runnable(st, t):
+            st.sched = 'post'
+            return
 
 
 def block(e, st, fr, wait):
@@ -174,6 +187,9 @@ def h_vstore(e, st, fr, ins):
     if st.threads is not None:
         if sched_point(e, st, fr): return True
         st.env['wseq'] += 1
+        llsym.h_store(e, st, fr, ins)
+        post_point(e, st)
+        return st.sched is not None
     return llsym.h_store(e, st, fr, ins)
 
 
@@ -181,6 +197,9 @@ def h_atomicrmw(e, st, fr, ins):
     if st.threads is not None:
         if sched_point(e, st, fr): return True
         st.env['wseq'] += 1
+        llsym.h_atomicrmw_plain(e, st, fr, ins)
+        post_point(e, st)
+        return st.sched is not None
     return llsym.h_atomicrmw_plain(e, st, fr, ins)
 
 
@@ -402,8 +421,15 @@ def x_cond_wait(e, st, fr, args, name):
                 d = dict(st.env.get('mtx', {})); d[mk] = (cur.tid, m[1]); st.env['mtx'] = d
                 return 110
         return block(e, st, fr, ('cond', k, gen))
-    # resumed after a signal: re-acquire the mutex
+    # resumed after a broadcast (generation changed) or a signal (one wake-up token, taken by whichever waiter runs first)
     if cur.skip: cur.skip = False
+    if len(rec) == 2:
+        if st.env.get('cond', {}).get(k, 0) == rec[0]:
+            tok = dict(st.env.get('condtok', {}))
+            if tok.get(k, 0) <= 0:
+                return block(e, st, fr, ('cond', k, rec[0]))
+            tok[k] -= 1; st.env['condtok'] = tok
+        cw = dict(cw); cw[cur.tid] = (rec[0], rec[1], 1); st.env['cw'] = cw      # woken: only the mutex is still to be re-acquired
     d = st.env.get('mtx', {})
     m = d.get(mk)
     if m is not None and m[0] != cur.tid:
@@ -417,7 +443,16 @@ def x_cond_signal(e, st, fr, args, name):
     _init(st)
     k = _key(e, st, args[0], name)
     if sched_point(e, st, fr): return SWITCHED
+    if name == 'pthread_cond_signal':
+        # wakes at most one of the threads currently waiting (a signal with no waiter is lost, as in POSIX)
+        waiting = sum(1 for t in st.threads if t.status == 'blocked' and t.wait and t.wait[0] == 'cond' and t.wait[1] == k)
+        tok = dict(st.env.get('condtok', {}))
+        if waiting > tok.get(k, 0):
+            tok[k] = tok.get(k, 0) + 1; st.env['condtok'] = tok
+        st.env['wseq'] += 1
+        return 0
     d = dict(st.env.get('cond', {})); d[k] = d.get(k, 0) + 1; st.env['cond'] = d
+    tok = dict(st.env.get('condtok', {})); tok[k] = 0; st.env['condtok'] = tok
     st.env['wseq'] += 1
     return 0
 
